@@ -131,6 +131,12 @@ func c17Run(w *W) {
 		skind, rkind = "pair", "pair"
 		nrecv = 1
 	}
+	rawSender := topo != "reqrep" && w.Choose(simrt.SShape, 3) == 0
+	if rawSender {
+		// the raw variant of the sending pattern has its own per-pipe senders
+		skind = "x" + skind
+	}
+	w.SetShape("sender", skind)
 	sender = sock(skind)
 	if err := sender.Listen(addr); err != nil {
 		w.Failf("HARNESS/listen", "%v", err)
@@ -180,6 +186,9 @@ func c17Run(w *W) {
 		body := patBody(fmt.Sprintf("m%d", i), sz)
 		m := mangos.NewMessage(len(body))
 		m.Body = append(m.Body, body...)
+		if rawSender {
+			m.Header = append(m.Header, rawHeader(skind, 1, uint32(i+1))...)
+		}
 		w.Op("%s sends %d bytes", skind, len(body))
 		c := w.Do("SendMsg", func() (interface{}, error) { return nil, sender.SendMsg(m) })
 		c.Wait(50 * time.Millisecond)
